@@ -4,7 +4,7 @@ import json, os, re
 import verif
 
 ALL_INV = ["SnapshotData", "SnapshotIndexed", "IndexSound", "KeyAlive", "ContentAddressed", "NonceFresh",
-           "NoLeak", "PackUnmixed", "Readable", "ReadOnlyRespected", "ForgetMatchesReport", "NoWaste"]
+           "NoLeak", "PackUnmixed", "Readable", "ReadOnlyRespected", "NoLockRespected", "ForgetMatchesReport", "NoWaste"]
 ALL_RULES = ["R_PackBeforeIndex", "R_IndexBeforeSnapshot", "R_IndexGoneBeforePackDelete",
              "R_IndexDeleteKeepsNeeded", "R_LastKeyKept", "R_ConfigWriteOnce", "R_SnapshotNotLost", "R_OriginalKept"]
 
@@ -73,6 +73,32 @@ def context_of(lines, ln):
         if e.get("ev") == "Reset":
             return e
     return {}
+
+
+DESIGN = {
+    # family: (quick positive cfgs, thorough positive cfgs, negative twins: cfg -> expected violated name)
+    "backup": (["backup_small"], ["backup"], {"backup_snapfirst": "SnapshotIndexed", "backup_idxfirst": "IndexSound",
+                                             "backup_readerfirst": "ReaderOK"}),
+    "prune": (["prune_small"], ["prune"], {"prune_delfirst": "IndexSound", "prune_dropidx": "SnapshotIndexed"}),
+    "tag": (["tag"], ["tag"], {"tag_removefirst": "TagNeverLoses"}),
+}
+
+
+def design_runs(ctx, family):
+    """Model-check the RepoProc design model of a family: the positive configuration must satisfy all
+    invariants and ordering rules, every negative twin (deliberately broken design) must be refuted by TLC.
+    A failure here is a machinery error (the design model does not depend on /repo)."""
+    quick, thorough, twins = DESIGN[family]
+    out = []
+    for c in (thorough if ctx.thorough() else quick):
+        r = ctx.tlc("RepoProcMC", cfg="RepoProc_%s.cfg" % c, workers=12, name="design_" + c, timeout=2400, deadlock=True)
+        out.append({"cfg": c, "states": r["states"], "transitions": r["transitions"], "result": "holds"})
+    for c, exp in twins.items():
+        r = ctx.tlc("RepoProcMC", cfg="RepoProc_%s.cfg" % c, workers=4, name="twin_" + c, timeout=900, allow_violation=True)
+        if exp not in r["violated"]:
+            raise verif.MachineryError("negative twin %s was not refuted (expected %s, got %s)" % (c, exp, r["violated"]))
+        out.append({"cfg": c, "states": r["states"], "transitions": r["transitions"], "result": "refuted: " + exp})
+    return out
 
 
 def finish_trace(ctx, out, level, invs=None, rules=None, key_prefix=None, extra_cov=None, assumptions=None):
